@@ -30,13 +30,13 @@ EXHAUSTIVE = {"quick": False, "thorough": False}  # enumerated sub-spaces are co
 
 KINDS = ["acm", "scm", "apush", "spush", "cb"]
 # sampled in addition: objects implementing BOTH context manager protocols (entered / only pushed)
-KINDS_EXTRA = KINDS + ["dualcm", "dualpush"]
+KINDS_EXTRA = KINDS + ["dualcm", "dualpush", "scmpush", "acmpush"]  # ...push: a manager object pushed, never entered
 BEHS = ["falsy", "truthy", "raise", "raise_if_exc"]
 # sampled in addition to the enumerated behaviours: exits that raise a BaseException which is not an Exception
 BEHS_EXTRA = BEHS + ["raise_base", "raise_base_if_exc", "reraise_same", "reraise_same",
                      # standard exception types a library may be tempted to catch for its own purposes
                      "raise_std:StopAsyncIteration", "raise_std:RuntimeError", "raise_std:KeyError", "raise_std:AttributeError",
-                     "raise_std:TypeError", "raise_std:GeneratorExit"]
+                     "raise_std:TypeError", "raise_std:GeneratorExit", "raise_chained", "raise_chained"]
 STD = {"StopAsyncIteration": StopAsyncIteration, "RuntimeError": RuntimeError, "KeyError": KeyError,
        "AttributeError": AttributeError, "TypeError": TypeError, "GeneratorExit": GeneratorExit}
 FALSY = [None, False, 0, ""]
@@ -129,6 +129,15 @@ def mk_entry(kind, beh, i, log, susp, choice):
             return None
         if beh.startswith("raise_std:"):
             raise STD[beh.split(":")[1]](f"s{i}")
+        if beh == "raise_chained":
+            # the handler's own failure already carries a context chain of its own
+            try:
+                try:
+                    raise E(f"inner{i}")
+                except E:
+                    raise E(f"middle{i}")
+            except E:
+                raise E(f"x{i}")
         if beh == "raise_base":
             raise EB(f"b{i}")
         if beh == "raise_base_if_exc":
@@ -167,9 +176,9 @@ def mk_entry(kind, beh, i, log, susp, choice):
             log.append(("sync-exit-used", i))
             return False
 
-    if kind == "acm":
+    if kind in ("acm", "acmpush"):
         return ACM()
-    if kind == "scm":
+    if kind in ("scm", "scmpush"):
         return SCM()
     if kind in ("dualcm", "dualpush"):
         return Dual()
@@ -235,6 +244,18 @@ def run_stack(case, stats):
             with e as v:
                 l1.append(("value", v))
                 await nest(i + 1)
+        elif k in ("scmpush", "acmpush"):
+            class W:
+                async def __aenter__(self):
+                    pass
+
+                async def __aexit__(self, *x, _k=k):
+                    if _k == "scmpush":
+                        return e.__exit__(*x)
+                    return await e.__aexit__(*x)
+
+            async with W():
+                await nest(i + 1)
         elif k == "apush":
             class W:
                 async def __aenter__(self):
@@ -289,7 +310,7 @@ def run_stack(case, stats):
                 if k in ("acm", "scm", "dualcm"):
                     v = await s.enter_context(e)
                     l2.append(("value", v))
-                elif k in ("apush", "spush", "dualpush"):
+                elif k in ("apush", "spush", "dualpush", "scmpush", "acmpush"):
                     if s.push(e) is not e:
                         misc.append("push did not return its argument")
                 else:
